@@ -337,6 +337,11 @@ func genFSFault(w *simrt.Choices, nTargets int) fsFault {
 	f := fsFault{On: true, Delta: w.Choose(14), Len: []int{1, 1, 1, 2, 4, 30}[w.Choose(6)], NoSpc: w.Choose(2) == 0, Target: w.Choose(nTargets)}
 	if w.Choose(4) == 0 {
 		f.Stall = []time.Duration{200 * time.Millisecond, 2 * time.Second, 7 * time.Second}[w.Choose(3)]
+		if f.Len > 4 {
+			// a stall is a delay, not an outage: keep the whole of it (here at most 28 s) well below
+			// the patience of the harness's own clients, which would otherwise give up first
+			f.Len = 4
+		}
 	}
 	return f
 }
